@@ -173,6 +173,19 @@ where
             ));
         }
 
+        // The domain of a circuit of this degree must fit in the 2-adic subgroup of F.
+        let extended_k = EvaluationDomain::<F>::extended_k_for(cs.degree() as u32, k.into());
+        if extended_k > F::S {
+            return Err(io::Error::new(
+                io::ErrorKind::InvalidData,
+                format!(
+                    "extended circuit size value (extended_k): {} exceeds maximum: {}",
+                    extended_k,
+                    F::S
+                ),
+            ));
+        }
+
         let domain = EvaluationDomain::new(cs.degree() as u32, k.into());
 
         let mut num_fixed_columns = [0u8; 4];
